@@ -50,17 +50,19 @@ def run(ctx):
                          # spacing 1 on the first half, 1/2 on the second: neighbouring stencils share all but one spacing
                          ('locally refined', [Fr(k) if k <= N // 2 else Fr(N // 2) + Fr(k - N // 2, 2) for k in range(N)])):
             exact(ctx, where, n, m, g, gname)
+            if (n, m) in ((1, 1), (2, 2)) and gname in ('stretched', 'locally refined'):
+                exact(ctx, where, n, m, g, gname, warm=True)
     rep.notes['trusted_base'] = ['python ast', 'ndverif abstract interpreter (array views with exact index sets)', 'C15']
 
 
-def exact(ctx, where, n, m, g, gname):
+def exact(ctx, where, n, m, g, gname, warm=False):
     import math
     from ..algebra import alg_equal
     from ..engine import budget
     rep = ctx.rep
     mm = n // 2 + m
     D = 2 * mm
-    label = 'n=%d/m=%d/len(x)=%d/%s grid' % (n, m, len(g), gname)
+    label = 'n=%d/m=%d/len(x)=%d/%s grid%s' % (n, m, len(g), gname, ' after other calls in the same process' if warm else '')
     C, S = Poly.sym('c'), Poly.sym('s')
     a = [Poly.sym('a%d' % d) for d in range(D + 1)]
     xs = [C + S * gk for gk in g]
@@ -78,7 +80,15 @@ def exact(ctx, where, n, m, g, gname):
             models = Models()
             I = Interp(ctx.repo, models, branch_oracle=oracle)
             models.bind(I)
-            return I.get_global('fornberg', 'fd_derivative')(Arr((len(g),), fx), Arr((len(g),), xs), n, m)
+            fdd = I.get_global('fornberg', 'fd_derivative')
+            if warm:
+                # earlier calls in the same process on the same grid: another order, another accuracy, the reversed grid -
+                # nothing they leave behind may reach the judged call
+                for n0, m0 in ((n + 1, m), (max(n - 1, 1), m + 1)):
+                    if len(g) >= 2 * (n0 // 2 + m0) + 2:
+                        fdd(Arr((len(g),), list(fx)), Arr((len(g),), list(xs)), n0, m0)
+                fdd(Arr((len(g),), list(fx)[::-1]), Arr((len(g),), list(xs)[::-1]), n, m)
+            return fdd(Arr((len(g),), fx), Arr((len(g),), xs), n, m)
         with budget(90, 'fd_derivative exact n=%d m=%d' % (n, m)):
             paths = approx_paths(body, records=records, zero_symbols=('c',))
         label0 = label
